@@ -214,13 +214,19 @@ func (l *lane) runScCli(tc *tcase, c *acase, out emitter) {
 		r.Detail = "the call returned at its deadline, the receive path keeps spinning"
 	}
 	if r.Outcome == "served" || r.Outcome == "dropped" {
+		var res2 clientRes
+		var state2 string
 		for k := 0; k < 2 && !r.Sentinel; k++ {
-			res2, state2, _, _ := l.scCliOnce(&goodScCli)
+			res2, state2, _, _ = l.scCliOnce(&goodScCli)
 			r.Sentinel = state2 == "returned" && res2.Ok
 			if state2 != "returned" {
 				break
 			}
 		}
+		l.sentinelLastResort(&r, res2, state2, func() (clientRes, string) {
+			x, s, _, _ := l.scCliOnceD(&goodScCli, 2400)
+			return x, s
+		})
 	}
 	out.Emit(r)
 }
